@@ -216,6 +216,9 @@ def run_pool(modname: str, specs: list[dict], procs: int = NSHARDS):
 # --------------------------------------------------------------------------- main
 def write_replay(prop_id: str, v: dict, new: bool = True) -> str:
     sub = os.path.join(REPLAY_DIR, prop_id, "new") if new else os.path.join(REPLAY_DIR, prop_id)
+    if new and os.environ.get("VERIF_EVIDENCE_DIR"):
+        # sensitivity runs against scratch trees (mutants, seeded changes): their findings do not belong under /verif
+        sub = os.path.join(os.environ["VERIF_EVIDENCE_DIR"], "replays", prop_id)
     os.makedirs(sub, exist_ok=True)
     safe = "".join(c if c.isalnum() or c in "-_." else "_" for c in v["signature"])[:80]
     path = os.path.join(sub, f"{safe}-{case_hash(v['case'])}.json")
